@@ -37,7 +37,7 @@ try:
     meta["demo_tail"] = r.stdout[-400:]
     if not skip_tests:
         t0 = time.time()
-        r = subprocess.run(["/verif/tools/run_tests.py", wt, "-n", "10"], stdout=subprocess.PIPE, stderr=subprocess.STDOUT, text=True)
+        r = subprocess.run(["/verif/tools/run_tests.py", wt, "-n", "6"], stdout=subprocess.PIPE, stderr=subprocess.STDOUT, text=True)
         meta["tests_exit"] = r.returncode
         meta["tests_tail"] = r.stdout[-1500:]
         meta["tests_wall_s"] = round(time.time() - t0)
